@@ -236,7 +236,7 @@ Xml Xml::decode(const String& x)
 			switch (c)
 			{
 			case '>':
-				if (b != elems.top().tag())
+				if (elems.length() < 2 || b != elems.top().tag()) // no open element: unbalanced end tag
 					return Xml();
 				{
 					Xml e = elems.popget();
